@@ -45,6 +45,12 @@ func dataPushes(script []byte) ([][]byte, error) {
 // concrete transaction; its signatures must be over the specification's digest
 // and the spend must execute as the specification says.
 func (e *env) signerCase(st tla.State) {
+	for rep := 0; rep < e.reps; rep++ {
+		e.signerCaseOnce(st, rep)
+	}
+}
+
+func (e *env) signerCaseOnce(st tla.State, rep int) {
 	c := e.c
 	cs, ex := st["case"], st["expect"]
 	txr, ctx := cs.F("tx"), cs.F("ctx")
@@ -60,7 +66,7 @@ func (e *env) signerCase(st tla.State) {
 	e.st.add("signer", 1)
 	c.Distinct(tag)
 
-	cn := newConc(caseRng(c.Seed, cs.String()))
+	cn := newConc(caseRng(c.Seed, fmt.Sprintf("%s#%d", cs.String(), rep)))
 	r := &renderer{c: cn, over: map[string][]byte{}, xonly: alg == "tapscript"}
 	var keys []*btcec.PrivateKey
 	for _, kv := range cs.F("keys").Seq() {
@@ -86,7 +92,7 @@ func (e *env) signerCase(st tla.State) {
 	switch {
 	case otype == "p2pk" || otype == "p2pkh" || otype == "sigscript-p2pkh" || strings.HasPrefix(otype, "multisig-"):
 		pk = script
-	case otype == "p2sh-p2pk" || otype == "p2sh-p2pkh" || otype == "p2sh-multisig-2of3":
+	case otype == "p2sh-p2pk" || otype == "p2sh-p2pkh" || strings.HasPrefix(otype, "p2sh-multisig-"):
 		pk = p2sh(script)
 	case otype == "p2wpkh":
 		pk = append([]byte{0x00, 0x14}, hash160(pubOf(key))...)
@@ -163,8 +169,9 @@ func (e *env) signerCase(st tla.State) {
 			}{k, cmp}
 		}
 	}
+	only := map[*btcec.PrivateKey]bool{} // empty: every key is available
 	kdb := txscript.KeyClosure(func(a address.Address) (*btcec.PrivateKey, bool, error) {
-		if en, ok := byAddr[a.EncodeAddress()]; ok {
+		if en, ok := byAddr[a.EncodeAddress()]; ok && (len(only) == 0 || only[en.k]) {
 			return en.k, en.c, nil
 		}
 		return nil, false, errors.New("no key")
@@ -180,6 +187,16 @@ func (e *env) signerCase(st tla.State) {
 		switch {
 		case alg == "legacy" && otype == "sigscript-p2pkh":
 			in.SignatureScript, herr = txscript.SignatureScript(tx, idx, pk, hType, key, comp)
+		case alg == "legacy" && strings.HasSuffix(otype, "-merged"):
+			// one signer at a time, the last one first; each pass gets the
+			// result of the previous one to merge with
+			var prevScript []byte
+			for i := len(keys) - 1; i >= 0 && herr == nil; i-- {
+				only = map[*btcec.PrivateKey]bool{keys[i]: true}
+				prevScript, herr = txscript.SignTxOutput(netParams, tx, idx, pk, hType, kdb, sdb, prevScript)
+			}
+			only = map[*btcec.PrivateKey]bool{}
+			in.SignatureScript = prevScript
 		case alg == "legacy":
 			in.SignatureScript, herr = txscript.SignTxOutput(netParams, tx, idx, pk, hType, kdb, sdb, nil)
 		case otype == "p2wpkh":
@@ -327,8 +344,9 @@ func (e *env) signerCase(st tla.State) {
 			}
 		}
 	}
-	if len(c.Ev.Coverage.Samples) < 6 && ht == 0x83 && idx1 == 2 && (otype == "p2tr-leaf" || otype == "p2sh-multisig-2of3") {
-		c.Sample(map[string]any{"case": tag, "digest": hx(want), "signatures": len(sigs)})
+	if rep == 0 && ht == 0x83 && idx1 == 2 && txr.F("ins").Len() == 2 && (otype == "p2tr-leaf" || otype == "p2sh-multisig-2of3-merged" || otype == "p2wpkh" && !comp) {
+		c.Sample(map[string]any{"kind": "signer case", "case": tag, "digest_layout": clip(ex.F("digest").String(), 1500), "rendered_digest": hx(want),
+			"signatures": len(sigs), "verifies_consensus_flags": ex.F("cons").Bool(), "verifies_standard_flags": ex.F("std").Bool()})
 	}
 }
 
@@ -338,4 +356,3 @@ func verdict(ok bool) string {
 	}
 	return "fails"
 }
-
